@@ -4,6 +4,8 @@ cd /verif
 for d in seeded/*/; do
   n=$(basename $d)
   P=$(python3 -c "import json;print(json.load(open('$d/meta.json'))['property'])")
-  r=$(tools/seed_test.sh $d/patch.diff $P 2>&1 | grep -c '^VIOLATION')
+  out=$(tools/seed_test.sh $d/patch.diff $P 2>&1)
+  if echo "$out" | grep -q "does not apply"; then echo "$n $P PATCH-DOES-NOT-APPLY"; continue; fi
+  r=$(echo "$out" | grep -c '^VIOLATION')
   echo "$n $P violations=$r"
 done
